@@ -150,3 +150,14 @@ class BadFilter:
 
     def run(self):
         return self.x
+
+
+@labtech.task(cache=None)
+class NestedLab:
+    """a task whose run() uses a Lab of its own, with the default progress / top displays (D24)"""
+    x: int
+    inner_backend: str
+
+    def run(self):
+        lab = labtech.Lab(storage=None, max_workers=1, runner_backend=self.inner_backend)
+        return lab.run_task(Leaf(self.x))
